@@ -19,6 +19,8 @@ class Facts:
         if not os.environ.get("SNOWLINT_NO_NORMALIZE"):
             normalize.rewrite_is_ok(d)
             normalize.rewrite_split_at(d)
+            normalize.rewrite_slice_get(d)
+            normalize.rewrite_ok_or(d)
         if base is not None and ("adts:" + cfg_id) in base:
             aren = normalize.detect_adt_renames(normalize.adt_index(d), base["adts:" + cfg_id])
             if aren:
@@ -26,6 +28,8 @@ class Facts:
                 d = json.loads(txt)
                 normalize.rewrite_is_ok(d)
                 normalize.rewrite_split_at(d)
+                normalize.rewrite_slice_get(d)
+                normalize.rewrite_ok_or(d)
                 self.normalized += [("rename-type", n, k) for n, k in sorted(aren.items())]
             fren = normalize.detect_field_renames(normalize.adt_index(d), base["adts:" + cfg_id])
             if fren:
@@ -38,6 +42,8 @@ class Facts:
                 d = json.loads(txt)
                 normalize.rewrite_is_ok(d)
                 normalize.rewrite_split_at(d)
+                normalize.rewrite_slice_get(d)
+                normalize.rewrite_ok_or(d)
                 if base is not None and ("adts:" + cfg_id) in base:
                     fren = normalize.detect_field_renames(normalize.adt_index(d), base["adts:" + cfg_id])
                     if fren:
